@@ -135,7 +135,7 @@ def run(ctx: Ctx):
             ctx, "C19.rtc.cells", FUNCTION, cases, "vlib.props.C19:check",
             bound=f"cell space reduction(29) x engine(5) x method(4) x reindex(3) x label kind(2) x label rank(2) x expected_groups(absent/present/none present) = {ncells} cells; a seeded sample of {len(cases)} cells, each on a length-6 / 2x3 input with rotating axis and chunk layout (single block, size-1 chunks = more blocks than split_every, uneven)",
             rule="postcondition per cell: the call (and its compute) either returns the NumPy-specified result or raises ValueError / NotImplementedError / ImportError; when method='map-reduce' succeeds, method=None succeeds with the same answer; explicit blockwise only where its precondition holds; non-trivial = chunked with >= 2 blocks",
-            nontrivial=lambda c: sum(len(x) for x in c["chunks"]) > len(c["chunks"]), chunksize=16,
+            nontrivial=lambda c: c.get("chunks") is not None and sum(len(x) for x in c["chunks"]) > len(c["chunks"]), chunksize=16,
         )
     ctx.assume("exceptions raised inside unmodelled library internals are only seen by the bounded part")
     ctx.trust("dask", "numpy_groupies", "numbagg", "z3 / cvc5")
